@@ -60,7 +60,8 @@ class InvalidHistory(BaseException):
 
 
 class Backend:
-    def __init__(self, input_payload=None, page_size=None):
+    def __init__(self, input_payload=None, page_size=None, empty_pages=False):
+        self.empty_pages = empty_pages   # every continuation is preceded by an EMPTY page that still carries a marker
         if input_payload is None:
             input_payload = X.json.dumps({})   # real json text, or the json model's token under symbolic execution
         self.ops: dict[str, Operation] = {}
@@ -183,6 +184,9 @@ class Backend:
         return CheckpointOutput(tok, CheckpointUpdatedExecutionState(touched, None))
 
     def get_execution_state(self, durable_execution_arn, checkpoint_token, next_marker, max_items=1000):
+        if self.empty_pages and not next_marker.endswith("~"):
+            self.pages[next_marker + "~"] = self.pages[next_marker]
+            return StateOutput([], next_marker + "~")
         rest = self.pages[next_marker]
         if self.page_size is not None and len(rest) > self.page_size:
             marker = next_marker + "+"
